@@ -167,12 +167,21 @@ pub fn run(seed: u64, n: usize, extra: &[String]) -> String {
                 if !hs.insert(h.clone()) { continue; }
                 fa.add_entry(AttestationEntry::new(h.clone(), gen_ranges(&mut rng)));
                 let texts = ["hello", "---", "src/a b.txt", "  0123456789abcdef 1-2", "\"base_commit_sha\": \"zzz\"", "multi\nline\n---\nmore", "é中🙂"];
+                let mut msgs = vec![Message::user(rng.pick(&texts).to_string(), None), Message::assistant(rng.pick(&texts).to_string(), None)];
+                if rng.chance(1, 3) {
+                    // a tool call whose JSON arguments reuse the note's own metadata key names (real, unescaped JSON keys further down the note)
+                    let ts = if rng.chance(1, 2) { Some("2026-01-01T00:00:00Z".to_string()) } else { None };
+                    msgs.push(Message::ToolUse { name: "Edit".into(), input: json!({"file_path": rng.pick(&texts).to_string(), "base_commit_sha": format!("{:040x}", rng.next() as u128),
+                        "nested": {"base_commit_sha": rng.pick(&texts).to_string(), "schema_version": "authorship/9.9.9"}, "prompts": {}, "list": [{"base_commit_sha": "x"}]}), timestamp: ts });
+                    msgs.push(Message::Thinking { text: rng.pick(&texts).to_string(), timestamp: None });
+                    msgs.push(Message::Plan { text: rng.pick(&texts).to_string(), timestamp: Some("t".into()) });
+                }
                 log.metadata.prompts.entry(h).or_insert_with(|| PromptRecord {
                     agent_id: AgentId { tool: "tool".into(), id: format!("id{}", rng.below(100)), model: "m".into() },
                     human_author: if rng.chance(1, 2) { Some("A <a@b>".into()) } else { None },
-                    messages: vec![Message::user(rng.pick(&texts).to_string(), None), Message::assistant(rng.pick(&texts).to_string(), None)],
+                    messages: msgs,
                     total_additions: rng.below(100) as u32, total_deletions: rng.below(100) as u32, accepted_lines: rng.below(100) as u32, overriden_lines: rng.below(10) as u32,
-                    messages_url: None,
+                    messages_url: if rng.chance(1, 4) { Some("https://example.invalid/\"base_commit_sha\": \"u\"".into()) } else { None },
                 });
             }
             log.attestations.push(fa);
